@@ -721,10 +721,12 @@ func bulk(rec *mon.Recorder, c int) {
 				if g == 0 {
 					hx.Search(idx, cfg.Vec(r), 5)
 				}
-				if g == 1 {
-					// a search over thousands of vertices whose caller goes away in the middle of it
-					hx.SearchAbandoned(idx, cfg.Vec(r), 50, time.Duration(r.Intn(200))*time.Microsecond)
-					atomic.AddInt64(&abandoned, 1)
+				if g >= 1 {
+					// searches over thousands of vertices whose caller goes away in the middle of them
+					for k := 0; k < 4; k++ {
+						hx.SearchAbandoned(idx, cfg.Vec(r), 400, time.Duration(r.Intn(150))*time.Microsecond)
+						atomic.AddInt64(&abandoned, 1)
+					}
 				}
 			}
 		}(g)
